@@ -13,6 +13,7 @@
   without it.
 -/
 import Sky.C24.Preserve
+import Sky.C24.Legacy
 namespace Sky.Props.C24
 open Sky.C24 Sky.C24.AMap
 
@@ -158,5 +159,29 @@ example : ((run goEnv State.init witness).conns.length,
 /-- and draining it empties everything (instance of `all_removed_all_empty`) -/
 example : (run goEnv State.init (witness ++ [.remove "10.0.0.1:6000" 1, .remove "10.0.0.1:50001" 2])).conns = [] := by
   decide
+
+/-! ### defect F9, machine-checked on the pre-repair `remove` (Sky.C24.Legacy) -/
+
+/-- removing the never-introduced connection :50002 erases the registry entry of the introduced :50001 -/
+example : ¬ InvCore goEnv (runLegacy goEnv State.init
+    [.connected "10.0.0.1:50001" 1, .introduced "10.0.0.1:50001" 1 0 6000,
+     .connected "10.0.0.1:50002" 2, .remove "10.0.0.1:50002" 2]) := by
+  intro h
+  have := invCoreB_of goEnv h
+  revert this
+  decide
+
+/-- … so a third connection with the same IP and mirror is then accepted: two introduced
+connections share IP and mirror -/
+example : ((runLegacy goEnv State.init
+    [.connected "10.0.0.1:50001" 1, .introduced "10.0.0.1:50001" 1 0 6000,
+     .connected "10.0.0.1:50002" 2, .remove "10.0.0.1:50002" 2,
+     .connected "10.0.0.1:50003" 3, .introduced "10.0.0.1:50003" 3 0 6000]).conns.filter
+      (fun c => c.state = .introduced ∧ c.mirror = 0)).length = 2 := by decide
+
+/-- after removing everything, `ipCounts` keeps a zero entry and a port-0 peer stays in `listenAddrs` -/
+example : (runLegacy goEnv State.init [.pending "10.0.0.3:0", .remove "10.0.0.3:0" 0]).ipCounts = [("10.0.0.3", 0)]
+    ∧ (runLegacy goEnv State.init [.pending "10.0.0.3:0", .remove "10.0.0.3:0" 0]).listenAddrs
+        = [("10.0.0.3:0", ["10.0.0.3:0"])] := by decide
 
 end Sky.Props.C24
